@@ -21,8 +21,8 @@ def gen_sched_case(rng, tier, kind=None, mode=None, static=False, many_to_one=No
     case = {'engine': 'N', 'kind': kind, 'mode': mode, 'rate': rate, 'flows': flows}
     # flow -> class map (identity or many-to-one) for the schedulers that accept one
     if many_to_one is None:
-        many_to_one = kind in MAPPABLE and kind != 'SP' and nflows >= 2 and rng.random() < 0.3
-    if many_to_one and kind in MAPPABLE and kind != 'SP' and nflows >= 2:
+        many_to_one = kind in MAPPABLE and nflows >= 2 and rng.random() < 0.3
+    if many_to_one and kind in MAPPABLE and nflows >= 2:
         ncls = rng.randint(1, nflows - 1)
         fmap = [rng.randrange(ncls) for _ in flows]
         for c in range(ncls):               # every class used
@@ -33,13 +33,17 @@ def gen_sched_case(rng, tier, kind=None, mode=None, static=False, many_to_one=No
         case['fmap'] = None
         classes = flows
     if kind == 'SP':
+        # SP's table is per flow; its flow2class only names the key under which the priority is noted on the packet
         case['table'] = [[f, rng.choice([1, 1, 2, 3, 5, 10, 0.5, 2.5])] for f in flows]
         rng.shuffle(case['table'])
     elif kind == 'WFQ' and rng.random() < 0.3:
         # fractional weights (shares that sum to at most 1) are as legal as integers
         case['table'] = [[c, rng.choice([0.5, 0.25, 0.125, 0.0625])] for c in classes]
     elif kind == 'DRR' and rng.random() < 0.25:
-        case['table'] = [[c, rng.choice([1.5, 2.5, 1, 4, 0.5])] for c in classes]
+        case['table'] = [[c, rng.choice([1.5, 2.5, 1, 4, 0.5, 0.3, 0.7])] for c in classes]
+    elif kind == 'DRR' and rng.random() < 0.2:
+        # weights whose smallest one does not divide 1500*weight: quanta with a fractional part
+        case['table'] = [[c, rng.choice([7, 8, 9, 11, 13, 19, 20])] for c in classes]
     elif kind in ('WFQ', 'DRR', 'WRR'):
         case['table'] = [[c, rng.choice([1, 1, 2, 3, 4])] for c in classes]
         if rng.random() < 0.5:
@@ -82,6 +86,13 @@ def gen_sched_case(rng, tier, kind=None, mode=None, static=False, many_to_one=No
         case['flows'] = flows = [m[f] for f in flows]
         case['table'] = [[m[c], v] for c, v in case['table']]
         fl = [m[f] for f in fl]
+    elif case['fmap'] is None and rng.random() < 0.1:
+        # 32-bit style flow ids (addresses)
+        big = [17, 3232235777, 167772161, 2886729729, 4294967295, 65536]
+        m = dict((f, big[f % len(big)]) for f in flows)
+        case['flows'] = flows = [m[f] for f in flows]
+        case['table'] = [[m[c], v] for c, v in case['table']]
+        fl = [m[f] for f in fl]
     wl = sorted([[ts[k], fl[k], sizes[k], 0, None, rng.choice([0, 0, 1, 2, 3]) if hop else 0] for k in range(n)],
                 key=lambda x: x[0])
     case['workload'] = wl
@@ -93,11 +104,35 @@ def gen_sched_case(rng, tier, kind=None, mode=None, static=False, many_to_one=No
         case['shadow'] = {'rate': rng.choice(GRID_RATES), 'table': tab2,
                           'workload': [[t * scale if mode != 'DISTINCT' else t + 2.0 ** -21, rng.choice(flows),
                                         rng.choice(sizes_pool)] for t in ts2]}
+    if rng.random() < 0.15:
+        # the caller's table object served an earlier scheduler with other values and was then edited in place
+        vals = [v for _c, v in case['table']]
+        case['table0'] = [[c, rng.choice(vals + [1, 2, 3])] for c, _v in case['table']]
     if monitor is None:
         monitor = rng.random() < 0.25
     if monitor:
         case['monitor'] = {'included': rng.random() < 0.5,
                            'dist': [rng.choice([0.125, 0.25, 0.5, 1.0, 0.0625, 0.03125]) for _ in range(10)]}
+    if mode != 'FLOAT' and rng.random() < 0.12:
+        # a fast link (tens of Mbit/s to Tbit/s): the same scenario with the rate multiplied and every instant divided
+        # by a power of two, which is exact in binary floating point; transmission times go down to nanoseconds
+        c = 2.0 ** rng.choice([15, 20, 24, 27])
+        case['rate'] = rate * int(c)
+        for x in case['workload']:
+            x[0] = x[0] / c
+        if kind == 'VC':
+            case['table'] = [[k, v / c] for k, v in case['table']]
+            if case.get('table0'):
+                case['table0'] = [[k, v / c] for k, v in case['table0']]
+        if case.get('shadow'):
+            case['shadow']['rate'] *= int(c)
+            for x in case['shadow']['workload']:
+                x[0] = x[0] / c
+            if kind == 'VC':
+                case['shadow']['table'] = [[k, v / c] for k, v in case['shadow']['table']]
+        if case.get('monitor'):
+            case['monitor']['dist'] = [v / c for v in case['monitor']['dist']]
+        case['fast_link'] = True
     return case
 
 
@@ -120,6 +155,18 @@ def build(w, case):
         def f2c(fid):
             return fid
     d = dict(table)
+    if case.get('table0') and kind != 'RR':
+        # the same dict object configured an earlier (idle) scheduler with other values, then was edited in place
+        d0 = dict(tuple(x) for x in case['table0'])
+        if set(d0) == set(d):
+            real, d = d, d0
+            one = dict(case)
+            one.pop('table0')
+            {'SP': lambda: SP(env, rate, d, flow2class=f2c), 'WFQ': lambda: WFQ(env, rate, d, flow2class=f2c),
+             'VC': lambda: VC(env, rate, d, flow2class=f2c), 'DRR': lambda: DRR(env, rate, d, flow2class=f2c),
+             'WRR': lambda: WRR(env, rate, d)}[kind]()
+            d.clear()
+            d.update(real)
     if kind == 'SP':
         s = SP(env, rate, d, flow2class=f2c)
     elif kind == 'WFQ':
@@ -491,6 +538,8 @@ def check_stamp_order(H, case, kind, pid):
         stats['virtual_time_reset'] = 1
     tol = 1e-9
     eq = 0
+    # stamps are compared relative to the largest stamp of the run (on a Tbit/s link all of them are nanoseconds)
+    smax = max([abs(a['stamp']) for a in H.arr if 'stamp' in a] or [1.0]) or 1.0
     for a in H.deps:
         if 'start' not in a or 'stamp' not in a:
             continue
@@ -499,8 +548,7 @@ def check_stamp_order(H, case, kind, pid):
             if 'stamp' not in x or close(x['t'], s, H.mode):
                 continue
             d = a['stamp'] - x['stamp']
-            scale = max(1.0, abs(a['stamp']), abs(x['stamp']))
-            if abs(d) <= tol * scale:
+            if abs(d) <= tol * smax:
                 eq += 1
                 if a['t'] > x['t'] and d == 0.0:
                     # equal stamps: the earlier arrival (strictly earlier instant) goes first
